@@ -78,9 +78,13 @@ def sanitize_sig(sig, counter):
 def gen_src(rng, k, counter):
     """One source package: a gen_pkgs module (default pools) with the embedding shapes."""
     ext = [e for e in gen_pkgs.EXT if e["name"] != "mock"]      # a package NAMED mock is C01's finding with the testify template
-    g = gen_pkgs.Gen(rng, ext=ext, std=gen_pkgs.STD + gen_pkgs.C02_STD)
+    # DenseGen: types that mention one package several times through nested generic instantiations
+    # (map[box.Key]box.Box[unit.Meters]): the "identical parameter types" clause needs every package of
+    # such a type imported and qualified.  name_tuples=0: parameter names are C01/C14's subject.
+    g = gen_pkgs.DenseGen(rng, dense=0.2, name_tuples=0.0, ext=ext, std=gen_pkgs.STD + gen_pkgs.C02_STD)
     m = g.module(src_name="src%d" % k)
     gen_pkgs.embedding_shapes(g, m, depth=4, n_random=rng.randint(3, 5))
+    counter[1] += g.stats["dense"]
     for i in m["ifaces"]:
         for mm in i["methods"]:
             sanitize_sig(mm["sig"], counter)
@@ -271,10 +275,9 @@ def admissible(rng, tparams, helpers):
             out.append(basic(rng.choice(["int", "uint8", "string"] if c["pkg"] == "" else ["int", "int64", "float64"])))
         elif k == "union":
             out.append(rng.choice(c["terms"])["t"])
-        elif k == "iface":                                 # interface{ Conv() <earlier parameter> }
-            prev = c["methods"][0]["sig"]["results"][0]["t"]["n"]
-            idx = [x["n"] for x in tparams].index(prev)
-            helpers.append(out[idx])
+        elif k == "iface":                                 # interface{ Conv() R } where R may mention earlier parameters
+            r = c["methods"][0]["sig"]["results"][0]["t"]
+            helpers.append(gen_pkgs.subst_ty(r, dict(zip([x["n"] for x in tparams], out))))
             out.append({"k": "named", "pkg": "#helper", "n": "zzConv%d" % (len(helpers) - 1), "targs": []})
         elif k == "named" and c["pkg"] == "io":
             out.append(rng.choice([named("io", "Reader"), named("io", "ReadWriteCloser"), {"k": "ptr", "e": named("os", "File")}]))
@@ -807,7 +810,7 @@ def check(ctx, only=None):
         return
     known = {k["id"]: k for k in load_known("C02")}
     hist, samples = {}, []
-    evaluations, renamed = 0, [0]
+    evaluations, renamed = 0, [0, 0]
     nontrivial = set()
     oracle_failed = False
     corr = []          # (module index, description, term, defs)
@@ -916,6 +919,7 @@ def check(ctx, only=None):
         ctx.violation(rp, nofail=not oracle_failed)
 
     hist["parameter/result names renamed away from C01/C14 known-finding classes"] = renamed[0]
+    hist["generator: dense multi-mention generic types (DenseGen)"] = renamed[1]
     ctx.write_evidence(gate, evaluations, len(nontrivial),
                        "one evaluation = one assertion line type-checked by the Go compiler (mock assignable to the interface: plain, generic function, concrete instantiation), "
                        "one generated mock type whose declared methods were compared with the specification inside Coq, or one output file whose mock types were counted; "
